@@ -61,6 +61,132 @@ fn show_state(s: &ProcessState) -> String {
     }
 }
 
+/// the closure handed to `remove_if` / `extract_if`: `done`, `chg`, `all`, `none`, `susp`, `run`, `alive`,
+/// `unowned`, `m<bit mask over indices>`, `p<pid>`
+#[derive(Clone, Copy, Debug, PartialEq)]
+enum RmPred {
+    Done,
+    Chg,
+    All,
+    Nothing,
+    Susp,
+    Run,
+    Alive,
+    Unowned,
+    Mask(u64),
+    PidIs(i32),
+}
+
+fn parse_pred(t: &str) -> Option<RmPred> {
+    Some(match t {
+        "done" => RmPred::Done,
+        "chg" => RmPred::Chg,
+        "all" => RmPred::All,
+        "none" => RmPred::Nothing,
+        "susp" => RmPred::Susp,
+        "run" => RmPred::Run,
+        "alive" => RmPred::Alive,
+        "unowned" => RmPred::Unowned,
+        _ => match t.split_at(1) {
+            ("m", r) => RmPred::Mask(r.parse().ok()?),
+            ("p", r) => RmPred::PidIs(r.parse().ok()?),
+            _ => return None,
+        },
+    })
+}
+
+impl RmPred {
+    fn eval(self, i: usize, j: &Job) -> bool {
+        match self {
+            RmPred::Done => !j.state.is_alive(),
+            RmPred::Chg => j.state_changed && !j.state.is_alive(),
+            RmPred::All => true,
+            RmPred::Nothing => false,
+            RmPred::Susp => j.state.is_stopped(),
+            RmPred::Run => j.state == ProcessState::Running,
+            RmPred::Alive => j.state.is_alive(),
+            RmPred::Unowned => !j.is_owned,
+            RmPred::Mask(m) => i < 64 && (m >> i) & 1 == 1,
+            RmPred::PidIs(p) => j.pid.0 == p,
+        }
+    }
+}
+
+/// What the documentation of `remove_if` / `extract_if` / `remove` promises about one call, evaluated on
+/// the real table (independent of the Lean model).  `take`: the iterator is advanced that many times and
+/// then dropped ("the remaining jobs are retained in the list").  `returned`: the indices the iterator
+/// yielded (`None` for `remove_if`, which returns nothing).
+fn removal_check(
+    before: &JobList,
+    after: &JobList,
+    pred: RmPred,
+    report: bool,
+    take: Option<usize>,
+    returned: Option<&[usize]>,
+) -> Option<String> {
+    // the jobs the call decides about, in the order of the indices ("Jobs are iterated in the order of indices")
+    let mut removed: Vec<usize> = vec![];
+    let mut visited: Vec<usize> = vec![];
+    for (i, j) in before.iter() {
+        if take.map(|n| removed.len() >= n).unwrap_or(false) {
+            break;
+        }
+        visited.push(i);
+        if pred.eval(i, j) {
+            removed.push(i);
+        }
+    }
+    for (i, j) in before.iter() {
+        if removed.contains(&i) {
+            if after.get(i).is_some() {
+                return Some(format!("rmif-table:{i}-kept"));
+            }
+        } else {
+            // "You can reset the `state_changed` flag of a job regardless of whether you choose to remove it or not."
+            let mut want = j.clone();
+            if report && visited.contains(&i) {
+                want.state_changed = false;
+            }
+            if after.get(i) != Some(&want) {
+                return Some(format!("rmif-table:{i}-lost"));
+            }
+        }
+    }
+    if after.iter().any(|(i, _)| before.get(i).is_none()) {
+        return Some("rmif-new-job".into());
+    }
+    if let Some(r) = returned {
+        if r != removed.as_slice() {
+            return Some("rmif-result".into());
+        }
+    }
+    // `remove`: "If the removed job is the current job, the previous job becomes the current job and another job
+    // is selected for the new previous job, if any.  If the removed job is the previous job, another job is
+    // selected for the new previous job, if any."  Hence: a current job that stays is still the current job; if it
+    // goes and the previous job stays, that one is the current job; if both stay, the previous job is unchanged.
+    let (c, p) = (before.current_job(), before.previous_job());
+    if let Some(c) = c {
+        if !removed.contains(&c) {
+            if after.current_job() != Some(c) {
+                return Some("rmif-current".into());
+            }
+            if let Some(p) = p {
+                if !removed.contains(&p) && after.previous_job() != Some(p) {
+                    return Some("rmif-previous".into());
+                }
+            }
+        } else if let Some(p) = p {
+            if !removed.contains(&p) && after.current_job() != Some(p) {
+                return Some("rmif-current".into());
+            }
+        }
+    }
+    if after.last_async_pid() != before.last_async_pid() {
+        return Some("rmif-async".into());
+    }
+    None
+}
+
 fn opt(n: Option<usize>) -> String {
     n.map(|n| n.to_string()).unwrap_or_else(|| "-".into())
 }
@@ -92,7 +218,7 @@ fn pids_mentioned(ops: &[&str]) -> Vec<i32> {
         }
         if matches!(
             w.first(),
-            Some(&"ins") | Some(&"upd") | Some(&"async") | Some(&"job") | Some(&"amp") | Some(&"hjs")
+            Some(&"ins") | Some(&"upd") | Some(&"async") | Some(&"job") | Some(&"amp") | Some(&"hjs") | Some(&"add") | Some(&"ajs")
         ) {
             if let Some(p) = w.get(1).and_then(|p| p.parse().ok()) {
                 if !v.contains(&p) {
@@ -557,7 +683,9 @@ fn run_case(case: &str) -> (String, String, String) {
         // into the list already suspended (`insert`, `handle_job_status`) or goes from not suspended to
         // suspended in the list (`update_status`)
         let became: Option<(i32, bool)> = match w.as_slice() {
-            ["ins", p, st] | ["job", p, st, _, _] | ["hjs", p, st, _, _] if st.starts_with('S') => {
+            ["ins", p, st] | ["add", p, st] | ["job", p, st, _, _] | ["hjs", p, st, _, _] | ["ajs", p, st, _, _]
+                if st.starts_with('S') =>
+            {
                 p.parse().ok().map(|p| (p, true))
             }
             ["upd", p, st] if st.starts_with('S') => p.parse().ok().and_then(|p: i32| {
@@ -1234,6 +1362,137 @@ fn run_case(case: &str) -> (String, String, String) {
                     .collect();
                 v.join(".")
             }
+            ["rmif", pr, r] => {
+                // the REAL `JobList::remove_if`
+                let (Some(pred), Some(report)) = (parse_pred(pr), parse_bool(r)) else {
+                    return ("bad-case".into(), "-".into(), String::new());
+                };
+                let before_list = l.clone();
+                l.remove_if(|i, mut j| {
+                    let d = pred.eval(i, &j);
+                    if report {
+                        j.state_reported();
+                    }
+                    d
+                });
+                doc = removal_check(&before_list, &l, pred, report, None, None);
+                "-".into()
+            }
+            ["xif", pr, r] => {
+                let (Some(pred), Some(report)) = (parse_pred(pr), parse_bool(r)) else {
+                    return ("bad-case".into(), "-".into(), String::new());
+                };
+                let before_list = l.clone();
+                let v: Vec<usize> = l
+                    .extract_if(|i, mut j| {
+                        let d = pred.eval(i, &j);
+                        if report {
+                            j.state_reported();
+                        }
+                        d
+                    })
+                    .map(|(i, _)| i)
+                    .collect();
+                doc = removal_check(&before_list, &l, pred, report, None, Some(&v));
+                v.iter().map(|i| i.to_string()).collect::<Vec<_>>().join(".")
+            }
+            ["xtake", n, pr, r] => {
+                // `extract_if` dropped after `n` items: "If the returned iterator is dropped before iterating all
+                // jobs, the remaining jobs are retained in the list."
+                let (Ok(n), Some(pred), Some(report)) = (n.parse::<usize>(), parse_pred(pr), parse_bool(r)) else {
+                    return ("bad-case".into(), "-".into(), String::new());
+                };
+                let before_list = l.clone();
+                let v: Vec<usize> = l
+                    .extract_if(|i, mut j| {
+                        let d = pred.eval(i, &j);
+                        if report {
+                            j.state_reported();
+                        }
+                        d
+                    })
+                    .take(n)
+                    .map(|(i, _)| i)
+                    .collect();
+                doc = removal_check(&before_list, &l, pred, report, Some(n), Some(&v));
+                v.iter().map(|i| i.to_string()).collect::<Vec<_>>().join(".")
+            }
+            ["add", p, st] => {
+                // the deprecated `JobList::add`: "This function is an alias for `insert`"
+                let (Ok(pid), Some(state)) = (p.parse::<i32>(), parse_state(st)) else {
+                    return ("bad-case".into(), "-".into(), String::new());
+                };
+                if let Some(i) = l.find_by_pid(Pid(pid)) {
+                    if l.get(i).map(|j| j.state.is_alive()).unwrap_or(false) {
+                        pre = false;
+                    }
+                }
+                let mut j = Job::new(Pid(pid));
+                j.state = state;
+                let mut twin = l.clone();
+                let want = twin.insert(j.clone());
+                #[allow(deprecated)]
+                let got = l.add(j);
+                if got != want || observe(&l, "", &pids) != observe(&twin, "", &pids) {
+                    doc = Some("add-differs-from-insert".into());
+                }
+                got.to_string()
+            }
+            ["rep1", i] => {
+                let Ok(i) = i.parse::<usize>() else {
+                    return ("bad-case".into(), "-".into(), String::new());
+                };
+                if let Some(mut j) = l.get_mut(i) {
+                    j.state_reported();
+                }
+                "-".into()
+            }
+            ["ajs", p, res, i, name] => {
+                // the deprecated `add_job_if_suspended` (still exported, re-exported by yash-semantics)
+                let (Ok(pid), Some(state), Some(inter)) = (p.parse::<i32>(), parse_state(res), parse_bool(i)) else {
+                    return ("bad-case".into(), "-".into(), String::new());
+                };
+                let ProcessState::Halted(result) = state else {
+                    return ("bad-case".into(), "-".into(), String::new());
+                };
+                if result.is_stopped() {
+                    if let Some(i) = l.find_by_pid(Pid(pid)) {
+                        if l.get(i).map(|j| j.state.is_alive()).unwrap_or(false) {
+                            pre = false;
+                        }
+                    }
+                }
+                let name = if *name == "-" { String::new() } else { name.to_string() };
+                let wd = world.get_or_insert_with(World::new);
+                let before_list = l.clone();
+                wd.env.options.set(Interactive, if inter { On } else { Off });
+                wd.env.jobs = std::mem::take(&mut l);
+                let name2 = name.clone();
+                #[allow(deprecated)]
+                let r = yash_env::job::add_job_if_suspended(&mut wd.env, Pid(pid), result, || name2);
+                wd.env.options.set(Interactive, Off);
+                l = std::mem::take(&mut wd.env.jobs);
+                if result.is_stopped() {
+                    let ok = l
+                        .find_by_pid(Pid(pid))
+                        .and_then(|i| l.get(i))
+                        .map(|j| j.name == name && j.job_controlled && j.state == state)
+                        .unwrap_or(false);
+                    if !ok {
+                        doc = Some("ajs-job".into());
+                    }
+                } else if observe(&l, "", &pids) != observe(&before_list, "", &pids) {
+                    // "If the process is not stopped, this function does not add a job."
+                    doc = Some("ajs-table".into());
+                }
+                match r {
+                    std::ops::ControlFlow::Continue(es) => format!("cont:{}", es.0),
+                    std::ops::ControlFlow::Break(yash_env::semantics::Divert::Interrupt(Some(es))) => {
+                        format!("intr:{}", es.0)
+                    }
+                    std::ops::ControlFlow::Break(_) => "break".into(),
+                }
+            }
             ["rep"] => {
                 for (_, mut j) in l.iter_mut() {
                     j.state_reported();
@@ -1329,6 +1588,15 @@ fn alphabet() -> Vec<String> {
     ops.push("rmdone 1".into());
     ops.push("rmchg".into());
     ops.push("rep".into());
+    // wave 3: the REAL `remove_if` (not only `extract_if`), with predicates that do not depend on the state
+    // (a bit mask over the indices), `extract_if` dropped early, the deprecated `add`, `get_mut().state_reported()`
+    for o in [
+        "rmif done 0", "rmif done 1", "rmif chg 0", "rmif susp 0", "rmif run 1", "rmif m3 0", "rmif m5 0", "rmif m6 0",
+        "rmif m7 1", "rmif m12 0", "xif m3 0", "xif m6 1", "xif alive 0", "xtake 1 done 0", "xtake 1 all 1", "xtake 2 m7 0",
+        "add 101 R", "add 102 S20", "rep1 0", "rep1 2",
+    ] {
+        ops.push(o.into());
+    }
     ops
 }
 
@@ -1390,6 +1658,16 @@ fn alphabet2() -> Vec<String> {
         "kres %-",
         "kres %ab",
         "bang",
+        // wave 3
+        "rmif done 0",
+        "rmif m3 0",
+        "rmif m6 1",
+        "rmif unowned 0",
+        "xtake 1 all 0",
+        "ajs 103 S120 0 b",
+        "ajs 101 S116 1 ab",
+        "ajs 102 K2 1 abc",
+        "rep1 1",
     ]
     .iter()
     .map(|s| s.to_string())
@@ -1437,6 +1715,28 @@ fn random_args(r: &mut Rng, options: &[&str], opt_den: u32, max_operands: usize)
         }
     }
     v.join(" ")
+}
+
+/// a random predicate for `rmif` / `xif` / `xtake`
+fn random_pred(r: &mut Rng, npids: usize) -> String {
+    match r.below(10) {
+        0 | 1 | 2 | 3 => format!("m{}", r.below(1usize << (npids + 1).min(9))),
+        4 => format!("p{}", 101 + r.below(npids)),
+        5 | 6 => "done".into(),
+        _ => r.pick(&["chg", "all", "none", "susp", "run", "alive", "unowned", "susp", "run"]).to_string(),
+    }
+}
+
+/// one of the wave-3 API operations
+fn random_api3_op(r: &mut Rng, npids: usize) -> String {
+    let p = 101 + r.below(npids);
+    match r.below(10) {
+        0 | 1 | 2 | 3 => format!("rmif {} {}", random_pred(r, npids), r.below(2)),
+        4 | 5 => format!("xif {} {}", random_pred(r, npids), r.below(2)),
+        6 | 7 => format!("xtake {} {} {}", r.below(4), random_pred(r, npids), r.below(2)),
+        8 => format!("add {p} {}", r.pick(&["R", "S20", "S19", "R"])),
+        _ => format!("rep1 {}", r.below(npids + 1)),
+    }
 }
 
 /// one operation of the mixed family (API operations, named jobs, built-ins, `cmd &`)
@@ -1509,6 +1809,18 @@ fn random_mixed_op(r: &mut Rng, npids: usize) -> String {
             3 => r.pick(&["ampfail", "replast", "replast"]).to_string(),
             _ => r.pick(&["disown", "rep", "rmdone 1", "rmchg"]).to_string(),
         },
+        19 if r.chance(2, 3) => {
+            if r.chance(1, 5) {
+                format!(
+                    "ajs {p} {} {} {}",
+                    r.pick(&["S120", "S116", "S121", "E0", "E2", "K2", "K9", "C2"]),
+                    r.below(2),
+                    r.pick(&names)
+                )
+            } else {
+                random_api3_op(r, npids)
+            }
+        }
         _ => format!("cur {}", r.below(npids + 1)),
     }
 }
@@ -1516,7 +1828,7 @@ fn random_mixed_op(r: &mut Rng, npids: usize) -> String {
 /// `ins`/`job`/`amp` of a pid whose job is alive violates the stated precondition: keep only some of those.
 fn respects_pre(key: &str, op: &str) -> bool {
     let w: Vec<&str> = op.split_whitespace().collect();
-    if w[0] != "ins" && w[0] != "job" && w[0] != "amp" && !(w[0] == "hjs" && w[2].starts_with('S')) {
+    if w[0] != "ins" && w[0] != "add" && w[0] != "job" && w[0] != "amp" && !((w[0] == "hjs" || w[0] == "ajs") && w[2].starts_with('S')) {
         return true;
     }
     // key contains "jobs=i:pid:state:..." entries
@@ -1658,7 +1970,8 @@ fn main() {
         for _ in 0..len {
             let op = loop {
                 let p = 101 + r.below(npids);
-                let cand = match r.below(12) {
+                let cand = match r.below(14) {
+                    12 | 13 => random_api3_op(&mut r, npids),
                     0 | 1 | 2 => format!("ins {p} {}", r.pick(&["R", "S20", "S19", "R"])),
                     3 | 4 | 5 | 6 => format!("upd {p} {}", r.pick(&["R", "S19", "S20", "E0", "E3", "K9"])),
                     7 => format!("cur {}", r.below(npids + 1)),
